@@ -109,6 +109,14 @@ theorem Batch.pick_law {α} {x y : Tensor α} {ids : List Nat} {dim : Nat} {raw 
   have ⟨_, _, hc, _, hb, _, hv⟩ := C02.Move.Fwd.pick_spec hx hlen h
   exact ⟨hc, hb, hv⟩
 
+-- minibatch broadcasting of pick: x without minibatch, three ids → three samples
+example : C02.Move.values (pickFw C02.Move.docX [0, 0, 1] 0 C02.Move.raw0) = some ([1, 3], 3, [1, 4, 7, 1, 4, 7, 2, 5, 8]) := by decide
+-- incompatible sizes are rejected: 2 samples, 3 ids
+example : C02.Move.values (pickFw (α := Int) ⟨⟨[2], 2, 2⟩, fun i => i, .here⟩ [0, 1, 0] 0 C02.Move.raw0) = none := by decide
+-- slice_bw folds the minibatch of gy into a gx without one
+example : (match sliceBw (α := Int) ⟨⟨[1], 3, 1⟩, fun i => 10 * (i + 1), .here⟩ 0 1 ⟨⟨[2], 1, 2⟩, fun _ => 1, .here⟩ with
+    | .ok g => (List.range 2).map g.data | .error _ => []) = [1, 61] := by decide
+
 theorem Batch.transpose_law {α} {x y : Tensor α} {raw : Nat → α} (hx : WF x.shape) (h : transposeFw x raw = .ok y) :
     y.shape.batch = x.shape.batch ∧
     ∀ i j b, i < x.shape.get 0 → j < x.shape.get 1 → b < x.shape.batch →
